@@ -293,9 +293,9 @@ func (c16Harness) Run(spec any) (res verifsim.RunResult) {
 					if want := base64.StdEncoding.EncodeToString(mac.Sum(nil)); got.Password != want {
 						addV("turn-credentials-mismatch", "password", fmt.Sprintf("parsed secret %q, the server's secret gives %q for user %q (minted URL %q)", got.Password, want, got.Username, raw))
 					}
-					wantAddr, wantTLS := turnEndpoint(sp.Turn[i])
-					if got.Addr != wantAddr || got.UseTLS != wantTLS {
-						addV("turn-credentials-mismatch", "endpoint", fmt.Sprintf("configured %q means %s tls=%v, client parsed %s tls=%v from %q", sp.Turn[i], wantAddr, wantTLS, got.Addr, got.UseTLS, raw))
+					wantAddr, wantTLS, wantTCP, wantSNI := turnEndpoint(sp.Turn[i])
+					if got.Addr != wantAddr || got.UseTLS != wantTLS || got.UseTCP != wantTCP || got.ServerName != wantSNI {
+						addV("turn-credentials-mismatch", "endpoint", fmt.Sprintf("configured %q means %s tls=%v tcp=%v servername=%q; the client parsed %s tls=%v tcp=%v servername=%q from the minted %q", sp.Turn[i], wantAddr, wantTLS, wantTCP, wantSNI, got.Addr, got.UseTLS, got.UseTCP, got.ServerName, raw))
 					}
 				}
 			}
@@ -346,9 +346,11 @@ func turnKind(raw string) string {
 	return "bare"
 }
 
-// turnEndpoint: the documented meaning of a configured TURN URL.
-func turnEndpoint(raw string) (string, bool) {
-	tls := strings.HasPrefix(raw, "turns")
+// turnEndpoint: the documented meaning of a configured TURN URL: host:port,
+// TLS for turns, TCP for turns or ?transport=tcp, TLS server name = the
+// ?servername= option or else the host.
+func turnEndpoint(raw string) (addr string, useTLS, useTCP bool, serverName string) {
+	useTLS = strings.HasPrefix(raw, "turns")
 	r := raw
 	for _, p := range []string{"turns://", "turns:", "turn://", "turn:"} {
 		if strings.HasPrefix(r, p) {
@@ -356,10 +358,24 @@ func turnEndpoint(raw string) (string, bool) {
 			break
 		}
 	}
+	query := ""
 	if i := strings.IndexByte(r, '?'); i >= 0 {
-		r = r[:i]
+		r, query = r[:i], r[i+1:]
 	}
-	return r, tls
+	addr = r
+	useTCP = useTLS
+	if i := strings.LastIndexByte(r, ':'); i >= 0 {
+		serverName = r[:i]
+	}
+	for _, kv := range strings.Split(query, "&") {
+		switch {
+		case kv == "transport=tcp":
+			useTCP = true
+		case strings.HasPrefix(kv, "servername="):
+			serverName = strings.TrimPrefix(kv, "servername=")
+		}
+	}
+	return
 }
 
 func firstLineSrv(s string) string {
